@@ -131,6 +131,52 @@ def _run_own(chk, S: Session):
     mle_rules(chk, S, r2)
     output_rules(chk, S, r1, r3)
     dynamic_zero_scale_rules(chk, S)
+    singular_whitening_rules(chk, S)
+
+
+def singular_whitening_rules(chk, S):
+    """Contradicting beliefs about one matrix: a caller that hands a least-squares solve to `bayes_rule_and_residual_whitened_rms_*` states that the observed
+    covariance may be singular; if the same composite whitens the residual with an exact triangular solve of that factor, the running MLE scale is 0/0 = NaN
+    exactly when the caller's precaution matters (an initial constraint that the exact initial condition already satisfies)."""
+    import ast as _ast
+
+    from ..harness import API
+
+    r5 = chk.rule("R-C04-5", "the whitened residual that enters the quasi-MLE scale follows the singular-update convention of the solve it is computed with "
+                  "(no exact triangular whitening next to a least-squares update of the same observed factor)", floor=1)
+    api = S.p.module(API)
+    comp = None
+    for ci in api.classes.values():
+        for mname, fn in ci.methods.items():
+            if mname.startswith("bayes_rule_and_residual_whitened_rms"):
+                comp = (ci, fn)
+    if comp is None:
+        r5.unknown("bayes_rule_and_residual_whitened_rms composite", "not found (anchor changed)", api.relpath)
+        return
+    ci, fn = comp
+    # does the composite hand its solve on to the whitening?
+    carried = False
+    for node in _ast.walk(fn):
+        if isinstance(node, _ast.Call) and isinstance(node.func, _ast.Attribute) and node.func.attr.startswith("residual_whitened_rms"):
+            srcs = [_ast.unparse(a) for a in node.args] + [_ast.unparse(k.value) for k in node.keywords]
+            carried = carried or any("solve" in x or "lstsq" in x or "pinv" in x for x in srcs)
+    sites = []
+    for m in S.p.modules.values():
+        for node in _ast.walk(m.tree):
+            if isinstance(node, _ast.Call) and isinstance(node.func, _ast.Attribute) and node.func.attr.startswith("bayes_rule_and_residual_whitened_rms"):
+                for k in node.keywords:
+                    if k.arg == "solve_triu" and "lstsq" in _ast.unparse(k.value):
+                        sites.append((m, node.lineno, _ast.unparse(k.value)))
+    if not sites:
+        r5.ok("least-squares call sites of the whitening composite", "none", api.relpath, nontrivial=False)
+        return
+    from .c08 import _enclosing_function
+
+    for m, line, src in sorted(sites, key=lambda x: (x[0].relpath, x[1])):
+        r5.require(carried, f"{m.name}.{_enclosing_function(m, line)} whitening of the residual of a least-squares update", "the composite whitens with the solve it was given",
+                   f"{ci.name}.{fn.name}(..., solve_triu={src}) reverts with the least-squares solve but whitens with the Normal's exact triangular solve: for an observed factor that is exactly zero "
+                   "(an initial constraint the exact initial condition already satisfies) the whitened residual is 0/0 and the reported MLE scale and all covariances are NaN "
+                   "(the well-defined value is 0, which the library returns for damp = 1e-150)", f"{m.relpath}:{line}")
 
 
 def dynamic_zero_scale_rules(chk, S):
